@@ -38,20 +38,38 @@ def showState (s : State) : String :=
 
 def hold : Bool := Generated.C38.lockHeldAcrossStoreRead
 
+/-- Event of a step taken by thread `idx` (state after the step). -/
+def evOf (s' : State) (idx : Nat) : String :=
+  match s'.threads[idx]? with
+  | some (.lDone _ a) => s!"ans:{fmtVal a}"
+  | some (.pDone _ b) => if b then "ack:1" else "ack:0"
+  | _ => "ok"
+
+/-- Driver state: the LTS state plus the threads that ran into the held cache lock and are
+parked on the mutex (FIFO, as tokio's mutex hands it over). -/
+structure DSt where
+  s : State
+  pending : List Nat
+
+/-- The parked threads take their step, in order, as soon as it is enabled. -/
+partial def servePending (off : Nat) (d : DSt) (acc : String) : DSt × String :=
+  match d.pending with
+  | [] => (d, acc)
+  | h :: rest =>
+    match step hold d.s (.run h) with
+    | none => (d, acc)
+    | some s' => servePending off ⟨s', rest⟩ (acc ++ s!"+{h - off}:{evOf s' h}")
+
 /-- One schedule token for model thread index `idx`. -/
-def token (s : State) (idx : Nat) : State × String :=
-  match s.threads[idx]? with
-  | none => (s, "-")
+def token (off : Nat) (d : DSt) (idx : Nat) : DSt × String :=
+  match d.s.threads[idx]? with
+  | none => (d, "-")
   | some t =>
-    if isDone t then (s, "-") else
-    match step hold s (.run idx) with
-    | none => (s, "b")
-    | some s' =>
-      let ev := match s'.threads[idx]? with
-        | some (.lDone _ a) => s!"ans:{fmtVal a}"
-        | some (.pDone _ b) => if b then "ack:1" else "ack:0"
-        | _ => "ok"
-      (s', ev)
+    if isDone t then (d, "-") else
+    if d.pending.contains idx then (d, "b") else
+    match step hold d.s (.run idx) with
+    | none => (⟨d.s, d.pending ++ [idx]⟩, "b")
+    | some s' => servePending off ⟨s', d.pending⟩ (evOf s' idx)
 
 def field (toks : List String) (k : String) : Option String :=
   toks.findSome? fun t => if t.startsWith (k ++ "=") then some (t.drop (k.length + 1)).toString else none
@@ -76,15 +94,16 @@ def handleLine (payload : String) : String :=
       let s0 := run (sys hold old (warm = "1")) (initState old (warm = "1")) labels
       let allDone (s : State) : Bool := (s.threads.drop off).all isDone
       -- explicit schedule
-      let (s1, outs1) := sched.foldl (fun (acc : State × List String) i =>
-        let (s', ev) := token acc.1 (i + off)
-        (s', s!"{ev},{showState s'}" :: acc.2)) (s0, [])
+      let (d1, outs1) := sched.foldl (fun (acc : DSt × List String) i =>
+        let (d', ev) := token off acc.1 (i + off)
+        (d', s!"{ev},{showState d'.s}" :: acc.2)) ((⟨s0, []⟩ : DSt), [])
       -- drain
       let drain := (List.range (3 * k + 3)).flatMap fun _ => List.range k
-      let (s2, outs2) := drain.foldl (fun (acc : State × List String) i =>
-        if allDone acc.1 then acc else
-        let (s', ev) := token acc.1 (i + off)
-        (s', s!"{ev},{showState s'}" :: acc.2)) (s1, outs1)
+      let (d2, outs2) := drain.foldl (fun (acc : DSt × List String) i =>
+        if allDone acc.1.s then acc else
+        let (d', ev) := token off acc.1 (i + off)
+        (d', s!"{ev},{showState d'.s}" :: acc.2)) (d1, outs1)
+      let s2 := d2.s
       let outs2 := if allDone s2 then outs2 else "unfinished" :: outs2
       -- a fresh lookup and a packet read after everything
       let n := s2.threads.length
